@@ -11,6 +11,33 @@ from .c17 import definition
 F = Fraction
 
 
+
+def primed_bc(model, name, dir_, data, prm):
+    """the judged boundary call, preceded on the SAME model object by sibling calls: each parameter changed in turn (all others
+    equal), another interior state, the other side.  A boundary state is a function of (side, interior state, parameters) and of
+    nothing the model object remembers from earlier calls"""
+    with np.errstate(all="ignore"):
+        for key, val in list(prm.items()):
+            if key == "type":
+                continue
+            sib = dict(prm)
+            if isinstance(val, (int, float)):
+                sib[key] = val * 1.07 + (0.01 if val == 0 else 0.0)
+            elif isinstance(val, (list, tuple)):
+                sib[key] = [v * 1.07 for v in val]
+            else:
+                continue
+            try:
+                model.namedBC(name, dir_, [np.array(d, dtype=float, copy=True) for d in data], sib)
+            except Exception:
+                pass
+        try:
+            model.namedBC(name, dir_, [np.array(d, dtype=float, copy=True) * 1.05 for d in data], dict(prm))
+            model.namedBC(name, -dir_ if np.isscalar(dir_) else -np.asarray(dir_), [np.array(d, dtype=float, copy=True) for d in data], dict(prm))
+        except Exception:
+            pass
+        return model.namedBC(name, dir_, data, prm)
+
 def base(**kw):
     r = dict(kind="bc", toks=[0], dirok=1, exact=0, gam=[3, 2], I=[[1, 1], [0, 1], [1, 1]], B=[[1, 1], [0, 1], [1, 1]],
              prm=[[1, 1], [1, 1], [1, 1]], bc="", dir=1, model="euler1d")
@@ -85,7 +112,7 @@ def euler1d_records(rnd, tier):
                     prm = {"prim": [rho * 1.3, -u * 0.5, p * 0.7]}
                 try:
                     with np.errstate(all="ignore"):
-                        out = model.namedBC(name, dir_, [np.array([x]) for x in I], dict(prm, type=name))
+                        out = primed_bc(model, name, dir_, [np.array([x]) for x in I], dict(prm, type=name))
                     B = tuple(float(np.ravel(x)[0]) for x in out)
                 except Exception as ex:
                     recs.append(dict(kind="raised", what="%s: %s" % (type(ex).__name__, str(ex)[:100]), model="euler1d", bc=name))
@@ -181,7 +208,7 @@ def other_records(rnd, tier):
                     prm.update(p=p * 0.9)
                 try:
                     with np.errstate(all="ignore"):
-                        out = model.namedBC(name, dirn_raw, I, prm)
+                        out = primed_bc(model, name, dirn_raw, I, prm)
                     Brho, BV, Bp = float(np.ravel(out[0])[0]), (float(out[1][0][0]), float(out[1][1][0])), float(np.ravel(out[2])[0])
                 except Exception as ex:
                     recs.append(dict(kind="raised", what="%s: %s" % (type(ex).__name__, str(ex)[:100]), model="euler2d", bc=name))
@@ -214,7 +241,7 @@ def other_records(rnd, tier):
         h, u = 10.0 ** rnd.uniform(-2, 2), rnd.uniform(-3, 3)
         for name, want in (("sym", (h, -u)), ("inf", (h, u))):
             for dir_ in (-1, 1):
-                out = sw.namedBC(name, dir_, [np.array([h]), np.array([u])], {"type": name})
+                out = primed_bc(sw, name, dir_, [np.array([h]), np.array([u])], {"type": name})
                 got = (float(np.ravel(out[0])[0]), float(np.ravel(out[1])[0]))
                 recs.append(base(bc=name, dir=dir_, model="shallowwater", toks=[0 if got == want else core.ULP_CAP]))
         # dirichlet for every model
